@@ -1,12 +1,322 @@
 /-
-  Oracle commands for C03 (stub: owns no commands yet).
+  Oracle commands for C03 (legacy pull path).
+
+    challenge <fixed 0|1> <hdrhex>
+        -> ok <realmhex> <servicehex> <scopehex> | panic
+    plan <nparts> <min> <max> <total>
+        -> <n> off/size ...
+    pull cfg <nparts> <min> <max> <retries> <fixed> <noprune>
+         univ <n> {dig}  blobs <n> {dig content}  partials <n> {dig <data|none> <np> {off size done}}
+         manifests <n> {name <corrupt | m MANIFEST>}  name <name>  realm <hex>
+         reg MANIFEST content <n> {dig content}  attempts <k> {ATTEMPT}
+        -> one observation per attempt, joined by " || "
+    MANIFEST := <nl> {DREF size} DREF size      DREF := e | b | <64 hex>
+    ATTEMPT  := ms <n> {REPLY} tok <n> {0|1} ls <n> {dig head <n> {REPLY} direct <n> {REPLY} chunks <np> {<n> {CHUNK}}}
+    REPLY    := pass <served|badjson | n | redirect|redirect200|noloc|badstatus> | neterr | unauth <hex> | notfound | status
+    CHUNK    := neterr | body <honest|full|junk hex|flip i> <cut: -|n> <eof|ueof|reset|stall>
+
+  `hash` of the model is instantiated with SHA-256 (implemented here, not in the model).
 -/
+import OllamaVerif.Model.Pull
 import Oracle.Util
 namespace Oracle.C03
-open Oracle
+open OllamaVerif OllamaVerif.Pull Oracle
+
+/-! SHA-256 (FIPS 180-4) -/
+def shaK : Array UInt32 := #[
+  0x428a2f98, 0x71374491, 0xb5c0fbcf, 0xe9b5dba5, 0x3956c25b, 0x59f111f1, 0x923f82a4, 0xab1c5ed5,
+  0xd807aa98, 0x12835b01, 0x243185be, 0x550c7dc3, 0x72be5d74, 0x80deb1fe, 0x9bdc06a7, 0xc19bf174,
+  0xe49b69c1, 0xefbe4786, 0x0fc19dc6, 0x240ca1cc, 0x2de92c6f, 0x4a7484aa, 0x5cb0a9dc, 0x76f988da,
+  0x983e5152, 0xa831c66d, 0xb00327c8, 0xbf597fc7, 0xc6e00bf3, 0xd5a79147, 0x06ca6351, 0x14292967,
+  0x27b70a85, 0x2e1b2138, 0x4d2c6dfc, 0x53380d13, 0x650a7354, 0x766a0abb, 0x81c2c92e, 0x92722c85,
+  0xa2bfe8a1, 0xa81a664b, 0xc24b8b70, 0xc76c51a3, 0xd192e819, 0xd6990624, 0xf40e3585, 0x106aa070,
+  0x19a4c116, 0x1e376c08, 0x2748774c, 0x34b0bcb5, 0x391c0cb3, 0x4ed8aa4a, 0x5b9cca4f, 0x682e6ff3,
+  0x748f82ee, 0x78a5636f, 0x84c87814, 0x8cc70208, 0x90befffa, 0xa4506ceb, 0xbef9a3f7, 0xc67178f2]
+
+def rotr (x : UInt32) (n : UInt32) : UInt32 := (x >>> n) ||| (x <<< (32 - n))
+
+def shaPad (msg : ByteArray) : ByteArray := Id.run do
+  let len := msg.size
+  let mut m := msg.push 0x80
+  while m.size % 64 != 56 do
+    m := m.push 0
+  let bits := len * 8
+  for i in [0:8] do
+    m := m.push (UInt8.ofNat (bits >>> (8 * (7 - i))))
+  return m
+
+def shaBlock (h : Array UInt32) (m : ByteArray) (base : Nat) : Array UInt32 := Id.run do
+  let mut w : Array UInt32 := Array.mkEmpty 64
+  for t in [0:16] do
+    let b0 := (m.get! (base + 4 * t)).toUInt32
+    let b1 := (m.get! (base + 4 * t + 1)).toUInt32
+    let b2 := (m.get! (base + 4 * t + 2)).toUInt32
+    let b3 := (m.get! (base + 4 * t + 3)).toUInt32
+    w := w.push ((b0 <<< 24) ||| (b1 <<< 16) ||| (b2 <<< 8) ||| b3)
+  for t in [16:64] do
+    let w15 := w[t - 15]!
+    let w2 := w[t - 2]!
+    let s0 := rotr w15 7 ^^^ rotr w15 18 ^^^ (w15 >>> 3)
+    let s1 := rotr w2 17 ^^^ rotr w2 19 ^^^ (w2 >>> 10)
+    w := w.push (w[t - 16]! + s0 + w[t - 7]! + s1)
+  let mut a := h[0]!
+  let mut b := h[1]!
+  let mut c := h[2]!
+  let mut d := h[3]!
+  let mut e := h[4]!
+  let mut f := h[5]!
+  let mut g := h[6]!
+  let mut hh := h[7]!
+  for t in [0:64] do
+    let s1 := rotr e 6 ^^^ rotr e 11 ^^^ rotr e 25
+    let ch := (e &&& f) ^^^ ((~~~ e) &&& g)
+    let t1 := hh + s1 + ch + shaK[t]! + w[t]!
+    let s0 := rotr a 2 ^^^ rotr a 13 ^^^ rotr a 22
+    let mj := (a &&& b) ^^^ (a &&& c) ^^^ (b &&& c)
+    let t2 := s0 + mj
+    hh := g; g := f; f := e; e := d + t1; d := c; c := b; b := a; a := t1 + t2
+  return #[h[0]! + a, h[1]! + b, h[2]! + c, h[3]! + d, h[4]! + e, h[5]! + f, h[6]! + g, h[7]! + hh]
+
+def sha256 (msg : Bytes) : Bytes := Id.run do
+  let m := shaPad (ByteArray.mk msg.toArray)
+  let mut h : Array UInt32 := #[0x6a09e667, 0xbb67ae85, 0x3c6ef372, 0xa54ff53a, 0x510e527f, 0x9b05688c, 0x1f83d9ab, 0x5be0cd19]
+  for i in [0:m.size / 64] do
+    h := shaBlock h m (64 * i)
+  let mut out : Array UInt8 := #[]
+  for x in h do
+    out := out.push (x >>> 24).toUInt8
+    out := out.push (x >>> 16).toUInt8
+    out := out.push (x >>> 8).toUInt8
+    out := out.push x.toUInt8
+  return out.toList
+
+/-! parsers -/
+def pDRef : TP DRef := do
+  let t ← tok
+  match t with
+  | "e" => pure .empty
+  | "b" => pure .bad
+  | _ => match unhex t with
+    | some b => pure (.ok b)
+    | none => failure
+
+def pLayer : TP Layer := do
+  let d ← pDRef
+  let s ← nat
+  pure ⟨d, s⟩
+
+def pManifest : TP Manifest := do
+  let ls ← listOf pLayer
+  let c ← pLayer
+  pure ⟨ls, c⟩
+
+def pReply {α} (p : TP α) : TP (Reply α) := do
+  let t ← tok
+  match t with
+  | "pass" => return .pass (← p)
+  | "neterr" => return .neterr
+  | "unauth" => return .unauth (← hex)
+  | "notfound" => return .notfound
+  | "status" => return .status
+  | _ => failure
+
+def pMBody : TP MBody := do
+  let t ← tok
+  match t with
+  | "served" => pure .served
+  | "badjson" => pure .badjson
+  | _ => failure
+
+def pDir : TP DirRep := do
+  let t ← tok
+  match t with
+  | "redirect" => pure .redirect
+  | "redirect200" => pure .redirect
+  | "noloc" => pure .noloc
+  | "badstatus" => pure .badstatus
+  | _ => failure
+
+def pChunk : TP ChunkReply := do
+  let t ← tok
+  match t with
+  | "neterr" => pure .neterr
+  | "body" =>
+    let s ← tok
+    let src ← (match s with
+      | "honest" => pure Src.honest
+      | "full" => pure Src.full
+      | "junk" => do return Src.junk (← hex)
+      | "flip" => do return Src.flip (← nat)
+      | _ => failure : TP Src)
+    let c ← tok
+    let cut ← (if c == "-" then pure none else match c.toNat? with
+      | some n => pure (some n)
+      | none => failure : TP (Option Nat))
+    let e ← tok
+    let en ← (match e with
+      | "eof" => pure End.eof
+      | "ueof" => pure End.ueof
+      | "reset" => pure End.reset
+      | "stall" => pure End.stall
+      | _ => failure : TP End)
+    pure (.body src cut en)
+  | _ => failure
+
+def pLScript : TP (Digest × LScript) := do
+  let d ← hex
+  expect "head"
+  let h ← listOf (pReply nat)
+  expect "direct"
+  let di ← listOf (pReply pDir)
+  expect "chunks"
+  let cs ← listOf (listOf pChunk)
+  pure (d, ⟨h, di, cs⟩)
+
+def pAttempt : TP Scripts := do
+  expect "ms"
+  let ms ← listOf (pReply pMBody)
+  expect "tok"
+  let ts ← listOf (do let n ← nat; pure (n != 0))
+  expect "ls"
+  let ls ← listOf pLScript
+  pure ⟨ms, ts, ls⟩
+
+def pPart : TP Part := do
+  let o ← nat
+  let s ← nat
+  let d ← nat
+  pure ⟨o, s, d⟩
+
+def pPartial : TP (Digest × Partial) := do
+  let d ← hex
+  let t ← tok
+  let data ← (if t == "none" then pure none else match unhex t with
+    | some b => pure (some b)
+    | none => failure : TP (Option Bytes))
+  let ps ← listOf pPart
+  pure (d, ⟨data, ps⟩)
+
+def pMFile : TP (Name × MFile) := do
+  let n ← nat
+  let t ← tok
+  match t with
+  | "corrupt" => pure (n, .corrupt)
+  | "m" => do
+    let m ← pManifest
+    pure (n, .readable m)
+  | _ => failure
+
+/-! printing -/
+def d12 (d : Digest) : String := ((hexOf d).take 12).toString
+
+def showDRef : DRef → String
+  | .empty => "e"
+  | .bad => "b"
+  | .ok d => d12 d
+
+def showErr : Err → String
+  | .manifest => "manifest" | .notfound => "notfound" | .http => "http" | .unauthorized => "unauthorized"
+  | .net => "net" | .auth => "auth" | .digestFormat => "digest-format" | .directStatus => "direct-status"
+  | .noLocation => "no-location" | .deadline => "deadline" | .maxRetries => "max-retries"
+  | .digestMismatch => "digest-mismatch"
+
+def showOutcome : Outcome → String
+  | .ok _ => "ok"
+  | .err e => "err:" ++ showErr e
+  | .panic .challenge => "panic:challenge"
+  | .panic .emptyDigest => "panic:empty-digest"
+
+def showLayer (l : Layer) : String := s!"{showDRef l.digest}/{l.size}"
+
+def showManifest (m : Manifest) : String :=
+  s!"l({joinWith "," (m.layers.map showLayer)})c({showLayer m.config})"
+
+def showStore (univ : List Digest) (st : Store) : String :=
+  let blobs := univ.filterMap fun d => (st.blobs d).map fun c => s!"{d12 d}:{hexOrDash c}"
+  let parts := univ.filterMap fun d =>
+    let pa := st.partials d
+    if pa.data.isNone && pa.parts.isEmpty then none
+    else
+      let data := match pa.data with
+        | none => "none"
+        | some b => hexOrDash b
+      some s!"{d12 d}:{data}:[{joinWith "," (pa.parts.map fun p => s!"{p.off}/{p.size}/{p.done}")}]"
+  let mans := (List.range 4).filterMap fun n => (lookupM n st.manifests).map fun mf =>
+    match mf with
+    | .corrupt => s!"{n}:corrupt"
+    | .readable m => s!"{n}:{showManifest m}"
+  s!"blobs=[{joinWith "," blobs}] partials=[{joinWith ";" parts}] manifests=[{joinWith ";" mans}]"
+
+def showNet (n : Net) : String :=
+  let d := if n.dStar then "*" else toString n.nd
+  s!"req=m{n.nm},h{n.nh},d{d},c{n.nc},t{n.nt}"
+
+def ofAssoc {β} (dflt : β) (l : List (Digest × β)) : Digest → β :=
+  fun d => match l.find? (fun kv => kv.1 == d) with
+    | some kv => kv.2
+    | none => dflt
+
+def runAttempts (cfg : Cfg) (univ : List Digest) (name : Name) (reg : Registry) :
+    List Scripts → Store → List String
+  | [], _ => []
+  | sc :: rest, st =>
+    let (o, st', log) := pull cfg sha256 name reg sc st
+    s!"{showOutcome o} {showNet log.net} {showStore univ st'}" :: runAttempts cfg univ name reg rest st'
+
+def pPull : TP String := do
+  expect "cfg"
+  let np ← nat
+  let mn ← nat
+  let mx ← nat
+  let rt ← nat
+  let fx ← nat
+  let npn ← nat
+  let cfg : Cfg := { nparts := np, minSize := mn, maxSize := mx, retries := rt, fixedChallenge := fx != 0, noPrune := npn != 0 }
+  expect "univ"
+  let univ ← listOf hex
+  expect "blobs"
+  let blobs ← listOf (do let d ← hex; let c ← hex; pure (d, c))
+  expect "partials"
+  let partials ← listOf pPartial
+  expect "manifests"
+  let mans ← listOf pMFile
+  expect "name"
+  let name ← nat
+  expect "realm"
+  let realm ← hex
+  expect "reg"
+  let m ← pManifest
+  expect "content"
+  let content ← listOf (do let d ← hex; let c ← hex; pure (d, c))
+  expect "attempts"
+  let atts ← listOf pAttempt
+  let st : Store := { blobs := ofAssoc none (blobs.map fun (d, c) => (d, some c)),
+                      partials := ofAssoc Partial.none partials, manifests := mans }
+  let reg : Registry := ⟨m, content, realm⟩
+  pure (joinWith " || " (runAttempts cfg univ name reg atts st))
 
 def handle (toks : List String) : Option String :=
   match toks with
+  | "challenge" :: rest =>
+    runTP (do
+      let fx ← nat
+      let h ← hex
+      pure (match parseChallenge (fx != 0) h with
+        | none => "panic"
+        | some c => s!"ok {hexOrDash c.realm} {hexOrDash c.service} {hexOrDash c.scope}")) rest
+  | "plan" :: rest =>
+    runTP (do
+      let np ← nat
+      let mn ← nat
+      let mx ← nat
+      let total ← nat
+      let ps := plan { nparts := np, minSize := mn, maxSize := mx, retries := 0 } total
+      pure (joinWith " " (toString ps.length :: ps.map fun p => s!"{p.off}/{p.size}"))) rest
+  | "sha256" :: rest =>
+    runTP (do
+      let b ← hex
+      pure (hexOf (sha256 b))) rest
+  | "pull" :: rest => runTP pPull rest
   | _ => none
 
 end Oracle.C03
